@@ -181,6 +181,91 @@ def gen_objects(tu):
     yield "objects rebuilt from the working tree (Makefile flags)", guarded(run)
 
 
+# ---------------------------------------------------------------------------
+# C03 / C20: run-time dispatch (src/core/arch/x86_64/runtime.cpp + the CPUID probe)
+def gen_dispatch(tu):
+    def run(path):
+        import tempfile, shutil, asmlift
+        wd = tempfile.mkdtemp(prefix="jpv.disp.")
+        obs = []
+        chk = lambda w, ok, m="": (w, "ok" if ok else "fail", "" if ok else m, None)
+        try:
+            asm_src = unity_source(with_driver=False) + '#include "%s/src/core/arch/x86_64/runtime.cpp"\n' % REPO
+            root = dump_ast(wd, name="disp_asm", source=asm_src, asm=True)
+            cur = [""]
+            gvars = []          # namespace-scope variable definitions of library files, in order
+
+            def walk(n, infunc):
+                k = n.get("kind")
+                f = in_repo(n, cur)
+                if k == "VarDecl" and not infunc and f.startswith(REPO + "/") and not n.get("isImplicit") and not (n.get("storageClass") == "extern" and not any(c.get("kind") for c in n.get("inner", []))):
+                    gvars.append((n, f))
+                body = infunc or k in ("FunctionDecl", "CXXMethodDecl", "CXXConstructorDecl")
+                for c in n.get("inner", []):
+                    walk(c, body)
+            walk(root, False)
+
+            def strip(e):
+                while e.get("kind") in ("ImplicitCastExpr", "ParenExpr", "ExprWithCleanups", "ConstantExpr") and e.get("inner"):
+                    e = e["inner"][0]
+                return e
+
+            def calls_in(e):
+                out = []
+                if e.get("kind") in ("CallExpr", "CXXMemberCallExpr", "CXXOperatorCallExpr"):
+                    out.append(e)
+                for c in e.get("inner", []):
+                    out += calls_in(c)
+                return out
+            byname = {n.get("name"): (n, f) for n, f in gvars}
+            order = [n.get("name") for n, f in gvars]
+            probe = "embedded_pairing_core_arch_x86_64_cpu_supports_bmi2_adx"
+            flag = byname.get("cpu_supports_bmi2_adx")
+            okflag = False
+            if flag:
+                init = [c for c in flag[0].get("inner", []) if c.get("kind")]
+                e = strip(init[0]) if init else {}
+                callee = strip(e["inner"][0]) if e.get("kind") == "CallExpr" else {}
+                okflag = e.get("kind") == "CallExpr" and callee.get("referencedDecl", {}).get("name") == probe and len(e.get("inner", [])) == 1
+            obs.append(chk("cpu_supports_bmi2_adx is initialised by one call of the CPUID probe", okflag))
+            for ptr, base in (("runtime_fpbase_384_montgomery_reduce", "fpbase_384_montgomery_reduce"), ("runtime_bigint_768_multiply", "bigint_768_multiply"), ("runtime_bigint_768_square", "bigint_768_square")):
+                ent = byname.get(ptr)
+                ok, msg = False, "not found"
+                if ent:
+                    init = [c for c in ent[0].get("inner", []) if c.get("kind")]
+                    e = strip(init[0]) if init else {}
+                    if e.get("kind") == "ConditionalOperator":
+                        c, a, b = [strip(x) for x in e["inner"]]
+                        names = [x.get("referencedDecl", {}).get("name") for x in (c, a, b)]
+                        ok = names == ["cpu_supports_bmi2_adx", "embedded_pairing_core_arch_x86_64_bmi2_adx_" + base, "embedded_pairing_core_arch_x86_64_" + base]
+                        msg = repr(names)
+                    ok = ok and order.index("cpu_supports_bmi2_adx") < order.index(ptr) and flag is not None and flag[1] == ent[1]
+                obs.append(chk("%s == probe ? bmi2_adx_%s : %s, initialised after the flag in the same translation unit -- both routines meet the same contract (asm units), so every probe value selects the same function" % (ptr, base, base), ok, msg))
+            # nothing else is dynamically initialised: no other namespace-scope variable of the library has a call in its initialiser,
+            # so no code can run before the table is set up and there is no cross-TU initialisation order to get wrong
+            dyn = []
+            for n, f in gvars:
+                if n.get("name") in ("cpu_supports_bmi2_adx", "runtime_fpbase_384_montgomery_reduce", "runtime_bigint_768_multiply", "runtime_bigint_768_square"):
+                    continue
+                if n.get("constexpr"):
+                    continue
+                for c in n.get("inner", []):
+                    if c.get("kind") and calls_in(c):
+                        dyn.append((n.get("name"), os.path.basename(f)))
+            obs.append(chk("no other namespace-scope object of the library has a function call in its initialiser (nothing runs before the dispatch table is set up)", not dyn, repr(dyn[:8])))
+            # the probe itself: CPUID leaf 7 sub-leaf 0, EBX bit 8 (BMI2) and bit 19 (ADX), both required, rbx preserved
+            funcs = asmlift.disassemble(os.path.join(REPO, "src/core/arch/x86_64/multiply_bmi2_adx.s"), wd)
+            ins = [re.sub(r"\s+", " ", t) for a, t in asmlift.routine(funcs, probe)]
+            want = ["push %rbx", "mov $0x7,%eax", "xor %ecx,%ecx", "cpuid", "xor %rax,%rax", "bt $0x8,%ebx", "adc %rax,%rax", "xor %rcx,%rcx", "bt $0x13,%ebx", "adc %rcx,%rcx", "and %rcx,%rax", "pop %rbx", "ret"]
+            norm = lambda t: re.sub(r"^(ret)q$", r"\1", t.replace("retq", "ret")).strip()
+            obs.append(chk("CPUID probe (machine code): leaf 7 / sub-leaf 0, returns EBX[8] & EBX[19] (BMI2 and ADX, Intel SDM), rbx saved and restored", [norm(x) for x in ins] == want, repr(ins)))
+        finally:
+            shutil.rmtree(wd, ignore_errors=True)
+        return obs
+    yield "dispatch", guarded(run)
+
+
 def units():
-    return [ScenUnit("C20: no function-local statics, no mutable globals beyond the dispatch table, no writes to globals (AST, all configurations)", P, gen_ast, contracts_used=["clang AST"]),
+    return [ScenUnit("C03/C20: run-time dispatch table: each pointer is probe ? BMI2/ADX routine : baseline routine of the same operation; CPUID probe; no other dynamic initialisation", ["C03", "C20"], gen_dispatch, contracts_used=["clang AST", "objdump of the assembled probe"]),
+            ScenUnit("C20: no function-local statics, no mutable globals beyond the dispatch table, no writes to globals (AST, all configurations)", P, gen_ast, contracts_used=["clang AST"]),
             ScenUnit("C20: undefined symbols and writable sections of the rebuilt objects", P, gen_objects, contracts_used=["clang++ / as / nm on the working tree"])]
